@@ -854,9 +854,9 @@ match Err(Error::StoppedByWatchdog).locate($1) { Ok(()) => (), Err(e) => return 
             r is Ok ==> final(self).own_polls() - old(self).own_polls() == polls_due((final(self).executed() - old(self).executed()) as nat, old(self).watchdog.interval() as nat),      //@ob C13.loop.execute.polls_once_per_interval
             final(self).own_polls() - old(self).own_polls() >= polls_due((final(self).executed() - old(self).executed()) as nat, old(self).watchdog.interval() as nat),      //@ob C13.loop.execute.never_fewer_polls_than_promised
             final(self).own_polls() - old(self).own_polls() <= polls_due((final(self).executed() - old(self).executed() + 1) as nat, old(self).watchdog.interval() as nat),      //@ob C13.loop.execute.never_more_polls_than_promised
-            // C17 / C06: nothing is done to the VM after the last iteration - unless an opcode was stopped by the watchdog, the VM returned
-            // is the VM the last `advance` left (what was recorded stays recorded, what was stored stays stored)
-            final(self).executed() > old(self).executed() && !stopped(final(self).watchdog.op_result())
+            // C17 / C06: nothing is done to the VM after the last iteration - unless the watchdog said stop, the VM returned is the VM
+            // the last `advance` left (what was recorded stays recorded, what was stored stays stored)
+            final(self).executed() > old(self).executed() && every_poll_continued(old(self).polls(), final(self).polls())
                 ==> iteration_summary(&final(self).watchdog.after_op(), final(self).watchdog.op_result(), final(self).watchdog.last_op(), final(self)),      //@ob C17.loop.execute.nothing_is_undone_after_the_last_iteration C06.loop.execute.nothing_is_undone_after_the_last_iteration
             final(self).config == old(self).config, final(self).instructions_len == old(self).instructions_len, final(self).wf(),
 //@loop 1
